@@ -102,6 +102,8 @@ func assertMargins(maxSteps int) {
 	})
 }
 
+func timeNow() int64 { return time.Now().Unix() }
+
 const cookie = 0x0c090c09
 const key = 7
 
@@ -377,6 +379,18 @@ func run(r *mc.Run) {
 			filerClause(r) // cheap: the whole clause again
 			return
 		}
+		var c2 Case2
+		if r.ReplayCase(&c2); c2.TwoBlobs {
+			assertMargins2(len(c2.Steps))
+			e := volkit.NewEnv("c09", storage.NeedleMapInMemory)
+			defer e.Close()
+			r.Case("replay")
+			_, vs := runCase2(e, c2)
+			for _, v := range vs {
+				r.Violate(v.class, v.msg, c2, nil)
+			}
+			return
+		}
 		var c Case
 		if err := r.ReplayCase(&c); err != nil {
 			mc.Fatal("replay: %v", err)
@@ -392,6 +406,7 @@ func run(r *mc.Run) {
 		return
 	}
 	assertMargins(3)
+	assertMargins2(3)
 	r.Set("max_steps", r.Pick(2, 3))
 	r.Assume(fmt.Sprintf("time is advanced by moving append timestamps, stored LastModified values and the volume's last-modified second into the past; every compared duration is >= %d minutes away from every threshold (checked at start-up), so no verdict depends on the wall clock", marginMin))
 	r.Assume("needles are built the way the HTTP upload path builds them (LastModified always present, EMPTY_TTL object when no ttl is given); in-memory needle map")
@@ -453,9 +468,51 @@ func run(r *mc.Run) {
 				})
 			}
 		})
+		enumerate2(r.Pick(2, 3), func(c Case2) {
+			mine := idx%n == shard
+			idx++
+			if !mine || !r.Begin(c) {
+				return
+			}
+			trace, vs := runCase2(e, c)
+			r.AddTransitions(int64(len(c.Steps)) + 2)
+			r.Add("two_blob_histories", 1)
+			last := "written"
+			if len(trace) > 0 {
+				last = trace[len(trace)-1]
+				last = last[:strings.Index(last, "@")] + last[strings.Index(last, ":"):]
+			}
+			cls := "two-blobs|" + c.VolTTL + "|" + orderName(c.First) + "|" + last
+			if len(vs) > 0 {
+				cls += "|" + vs[0].class
+			}
+			r.Case(cls)
+			cfg := fmt.Sprint("two/", c.VolTTL, "/", c.First, "|")
+			for _, t := range trace {
+				states[cfg+t] = struct{}{}
+			}
+			for _, v := range vs {
+				rechecked[v.class]++
+				if rechecked[v.class] > 2 {
+					r.Violate(v.class, v.msg, c, nil)
+					continue
+				}
+				cl, cc := v.class, c
+				r.Violate(v.class, v.msg, c, func() bool {
+					_, vs2 := runCase2(e, cc)
+					for _, x := range vs2 {
+						if x.class == cl {
+							return true
+						}
+					}
+					return false
+				})
+			}
+		})
 		su.Dump(shard, states)
 	})
 	r.AddStates(su.Count())
 	r.Sample("ttl-history", Case{VolTTL: "1h", NeedleTTL: "1d", LMOffset: 0, Steps: []Step{{80, "compact2"}, {0, "read"}}})
+	r.Sample("two-blob-history", Case2{TwoBlobs: true, VolTTL: "1d", First: 2, Gap: 1260, Steps: []Step{{0, "compact2"}, {1260, "heartbeat"}}})
 	r.Sample("filer-seconds", map[string]interface{}{"seconds": 90, "ttl": needle.SecondsToTTL(90)})
 }
